@@ -216,23 +216,6 @@ class TRed(TReal):
         self.side_exact = []
         self._seen_side = set()
         self.fresh_exact = {}
-        self.nfrac_of = {}
-        self.nfd_vars = {}
-
-    def _unused_const_decimal(self, coeff, nfrac):
-        return Theory.const_decimal(self, coeff, nfrac)
-
-    def _unused_nfd(self, a):
-        """number of fractional digits of the representation: known for `Decimal::new_raw` constants, otherwise any value in
-        0..18 (a fresh integer per term; an over-approximation of fpdec's bookkeeping)"""
-        k = a.term.get_id()
-        if k in self.nfrac_of:
-            return self.nfrac_of[k]
-        if k not in self.nfd_vars:
-            v = z3.Int("nfd!%d" % len(self.nfd_vars))
-            self.cons.append(z3.And(v >= 0, v <= 18))
-            self.nfd_vars[k] = v
-        return self.nfd_vars[k]
 
     def _side(self, desc, f, kind, exact=None):
         k = (desc, f.get_id(), tuple(c.get_id() if hasattr(c, "get_id") else c for c in self.cur_pc))
